@@ -56,6 +56,9 @@ CHECKS = {
  "C17": ("model_checking", "bounded exhaustive enumeration of commented rule pairs/triples x days x iteration starts on the real schedule_at/iter_range against the reference model M with provenance (writer per minute, own cover per rule)",
          "Well-formedness of every reported comment set, emptiness where no rule contributes, exact comments on periods written by exactly one isolated rule, and first-interval comments equal to the schedule period containing the start; what the statement leaves free (merging on overlap/coalescing) is not asserted.",
          "Provenance comes from M (DESIGN §2.3).", "DESIGN.md §3 C17"),
+ "C18": ("model_checking", "explicit enumeration of operation histories on the real code (all sequences up to the depth bound over an 11-operation alphabet colliding on the lazily built tables and shared Arcs; every order of first use in its own subprocess) against single-operation reference runs; loom exploration of thread interleavings of first use through a cfg-switched LazyLock facade",
+         "Every history up to the bound and every first-use order is executed and each observation compared with the operation run alone in a fresh process; the loom harness explores all interleavings of concurrent first use up to the preemption bound.",
+         "std LazyLock/Arc/Once are trusted; plain memory accesses outside the LazyLock seam are not under a controlled scheduler (free-running threads are a smoke test only).", "DESIGN.md §3 C18"),
  "C19": ("model_checking", "complete enumeration of the finite input space of the real ExtendedTime API against an integer-minute reference model",
          "Exhaustive: every (u8,u8), every u16, every valid time x every i16/i8 offset, every ordered pair; nothing is sampled, so within the stated API the property is decided, not estimated.",
          "Trusts chrono::NaiveTime accessors and the engine's 10-line integer model.", "DESIGN.md §3 C19"),
